@@ -106,6 +106,38 @@ def chunk_run(work, tier, seed):
             "design": {"cfg": cfg, "states": d, "transitions": g, "secs": round(secs, 1)}}
 
 
+def cover_run(work, tier, seed, cat):
+    """cmd/cover + CoverMonitor.tla: filter coverage on rows without a unique member (C18; C11 for the stored bag)."""
+    cbin = build_harness("cover")
+
+    def once(dirp):
+        drive([cbin, "-out", dirp, "-catalog", cat, "-seed", str(seed), "-tier", tier], work, "search", timeout=1800)
+        shutil.copyfile(os.path.join(dirp, "obs.ndjson"), os.path.join(work, "obs.ndjson"))
+        rc, out, secs = tlc(work, "CoverMonitor.tla", "CoverMonitor.cfg", workers=1, timeout=900, heap="3g")
+        errs = tlc_errors(out)
+        if errs:
+            at = out.find("Error:")
+            raise Infra("cover monitor failed: %s\n%s" % (errs[:3], out[at:at + 2000]))
+        m = re.search(r'<<"MONITOR-STATS", (".*")>>', out)
+        obs = {}
+        for line in open(os.path.join(dirp, "obs.ndjson")):
+            o = json.loads(line)
+            obs[o["id"]] = o
+        return monitor_report(out), (json.loads(json.loads(m.group(1))) if m else {}), obs
+
+    rep, stats, obs = once(os.path.join(work, "coverrun"))
+    viol = []
+    if rep["violations"]:
+        rep2, _, _ = once(os.path.join(work, "coverrerun"))
+        again = set((v["id"], v["p"]) for v in rep2["violations"])
+        for v in rep["violations"]:
+            o = obs[v["id"]]
+            viol.append({"pred": v["p"], "prop": v["p"][:3], "case_id": v["id"],
+                         "title": "coverage scenario %d (%s, partition %s, documents %s, merges %d)" % (o["id"], o["tok"], o["part"], o["docs"], o["merges"]),
+                         "sig": {"pred": v["p"]}, "reproduced": (v["id"], v["p"]) in again, "observation": o})
+    return {"violations": viol, "observations": len(obs), "stats": stats}
+
+
 def compute(tier, seed):
     t0 = time.time()
     work = scratch_dir("search")
@@ -152,6 +184,9 @@ def compute(tier, seed):
         # the block filter cursor on a file whose region spans several chunks: ChunkCursor.tla (design), cmd/chunk, ChunkMonitor.tla
         chunk = chunk_run(work, tier, seed)
         out_viol += chunk["violations"]
+        # filter coverage on rows that add no new pair (no unique member, partition derived from the row's shape)
+        cover = cover_run(work, tier, seed, cat)
+        out_viol += cover["violations"]
         if chunk["design_violations"]:
             design["violations"] = list(design["violations"]) + chunk["design_violations"]
         samples = []
@@ -160,6 +195,7 @@ def compute(tier, seed):
                 o = json.loads(line)
                 samples.append({"case": o["case"], "res": o["res"], "blocks": len(o["blocks"])})
         return {"design": design, "chunk": {k: chunk[k] for k in ("observations", "stats", "drift", "design")},
+                "cover": {k: cover[k] for k in ("observations", "stats")},
                 "impl": {"cases": nobs, "stats": stats, "stdio_bytes": summary["stdio_bytes"],
                                            "harness_secs": round(hsecs, 1)},
                 "violations": out_viol, "samples": samples, "wall_s": round(time.time() - t0, 1)}
@@ -210,6 +246,7 @@ def evidence(pid, tier, res):
         "monitor_predicates": PREDS[pid], "design_theorems": DESIGN_THEOREMS[pid], "design_run": des,
         "monitor_stats": st,
         "multi_chunk": res.get("chunk"),
+        "filter_coverage_scenarios": res.get("cover"),
         "drift_traces": [{"trace": d["id"], "program": "multi-chunk filter pass (%s, candidates %s)" % (d["mode"], d["cands"]),
                           "explained": None, "events": len(d["reads"]), "first_unexplained": d["reads"][:3]}
                          for d in (res.get("chunk") or {}).get("drift", [])],
